@@ -135,6 +135,8 @@ def rule_P(ck, lib):
         return
     b = lib.body(COMPOUND)
     pnames = [p.get("name") for p in b["params"]]
+    if COMPOUND in ctx.curried_roles(lib):
+        pnames = pnames[:-1]        # uncurried form: the last parameter is the input
     if not ck.judge(len(pnames) == 2, "C02-P", "compound:params", "parameters (root, header): %s" % pnames, "unexpected parameters %s" % pnames):
         return
     ROOTP, H = ("param", pnames[0]), ("param", pnames[1])
@@ -172,9 +174,10 @@ def rule_P(ck, lib):
         if not (v[0] == "ctor" and v[1] == OK):
             continue
         n_ok += 1
+        import parsefields
         tup = v[2][0]
-        node_t = tup[1][1][1][0] if tup[0] == "tuple" else None
-        hdr_t = tup[1][1][1][1] if tup[0] == "tuple" else None
+        lay = parsefields.header_layout(tup[1][1]) if tup[0] == "tuple" and len(tup[1]) == 2 else None
+        node_t, hdr_t = (lay[0], lay[1]) if lay else (None, None)
         # Ok((input, (node, Some(header))))
         if hdr_t is None or not (hdr_t[0] == "ctor" and hdr_t[1] == SOME):
             ck.bad("C02-P", "compound:ok-exit#%d:shape" % n_ok, "Ok value is not (input, (node, Some(header))): %s" % show_term(v))
@@ -219,8 +222,10 @@ def rule_P(ck, lib):
         for x in cexits:
             if x.kind in ("return", "err") and x.value[0] == "ctor" and x.value[1] == OK:
                 n += 1
+                import parsefields
                 tup = x.value[2][0]
-                node_t, hdr_t = tup[1][1][1][0], tup[1][1][1][1]
+                lay = parsefields.header_layout(tup[1][1]) if tup[0] == "tuple" and len(tup[1]) == 2 else None
+                node_t, hdr_t = (lay[0], lay[1]) if lay else (("lit", "str", "?"), ("lit", "str", "?"))
                 ok = hdr_t == ("ctor", NONE, ()) and pos(node_t, ("param", "__none__"), croot) == ("child", "Root")
                 ck.judge(ok, "C02-P", "common:ok-exit#%d" % n, "common header returns (child(Root), None)",
                          "common header returns node %s / path %s (must be a child of the root and no path)" % (show_term(node_t), show_term(hdr_t)))
@@ -296,8 +301,7 @@ def rule_H(ck, lib):
     b = lib.body(HEADER)
     pn = [p.get("name") for p in b["params"]]
     root, hdr = ("param", pn[0]), ("param", pn[1])
-    cl = ctx.returned_closure(hir.async_full(b["value"]))
-    inp = ("param", cl["params"][0].get("name"))
+    inp = ("param", ctx.parser_input(lib, HEADER))
     n = 0
     for i, x in enumerate(ex):
         apps = []
